@@ -1,11 +1,13 @@
 //go:build verif
 
 // C29 correspondence harness.  Drives the REAL continuous-query machinery
-//   scheduled run : CQScheduler.executeJob -> ContinuousQueryHandler.ExecuteCQ
-//   manual run    : POST /api/v1/continuous_queries/:id/execute (handleExecute)
-//   update        : PUT  /api/v1/continuous_queries/:id          (handleUpdate)
-//   restart       : close the handler (and its SQLite pool), build a new handler, scheduler
-//                   and HTTP app on the same SQLite file
+//
+//	scheduled run : CQScheduler.executeJob -> ContinuousQueryHandler.ExecuteCQ
+//	manual run    : POST /api/v1/continuous_queries/:id/execute (handleExecute)
+//	update        : PUT  /api/v1/continuous_queries/:id          (handleUpdate)
+//	restart       : close the handler (and its SQLite pool), build a new handler, scheduler
+//	                and HTTP app on the same SQLite file
+//
 // with real SQLite (one file per history), and one real DuckDB + ArrowBuffer + local storage
 // backend shared by all histories of a run (every history writes to its own database), under
 // the controlled clock / crash points that the overlay writes into continuous_query.go
@@ -48,6 +50,9 @@ type verifCQOp struct {
 	XE     string `json:"xe"`
 	Dry    bool   `json:"dry"`
 	Active bool   `json:"active"`
+	// destination-write failure: "" | nulltime | strtime (the definition is switched to a query whose
+	// `time` output the ingest buffer rejects) | nobuf (run through a handler without ingest buffer)
+	WFail string `json:"wfail"`
 }
 
 type verifCQCase struct {
@@ -84,6 +89,10 @@ type verifCQObs struct {
 
 const verifCQQuery = "SELECT {start_time} AS ws, {end_time} AS we, " +
 	"CASE WHEN (SELECT max(f) FROM verif_ctl) THEN error('verif-injected-failure') ELSE 0 END AS x"
+
+// the aggregation succeeds with one row, but its time column cannot be written to the destination
+const verifCQQueryNullTime = "SELECT {start_time} AS ws, {end_time} AS we, 0 AS x, CAST(NULL AS TIMESTAMP) AS time"
+const verifCQQueryStrTime = "SELECT {start_time} AS ws, {end_time} AS we, 0 AS x, 'not-a-time' AS time"
 
 type verifCQShared struct {
 	root    string
@@ -127,6 +136,11 @@ type verifCQEnv struct {
 	sched  *CQScheduler
 	app    *fiber.App
 	ro     *sql.DB
+	// the same query store served by a handler that has NO ingest buffer: every destination write fails
+	h2     *api.ContinuousQueryHandler
+	sched2 *CQScheduler
+	app2   *fiber.App
+	active bool
 }
 
 func (e *verifCQEnv) open() {
@@ -146,6 +160,20 @@ func (e *verifCQEnv) open() {
 	app.Use(fiberrecover.New())
 	h.RegisterRoutes(app)
 	e.app = app
+	h2, err := api.NewContinuousQueryHandler(e.sh.duck, e.sh.backend, nil, &config.ContinuousQueryConfig{Enabled: true, DBPath: e.sqlite}, nil, logger)
+	if err != nil {
+		t.Fatalf("handler2: %v", err)
+	}
+	e.h2 = h2
+	s2, err := NewCQScheduler(&CQSchedulerConfig{CQHandler: h2, Logger: logger})
+	if err != nil {
+		t.Fatalf("scheduler2: %v", err)
+	}
+	e.sched2 = s2
+	app2 := fiber.New(fiber.Config{DisableStartupMessage: true})
+	app2.Use(fiberrecover.New())
+	h2.RegisterRoutes(app2)
+	e.app2 = app2
 	ro, err := sql.Open("sqlite3", e.sqlite)
 	if err != nil {
 		t.Fatalf("sqlite ro: %v", err)
@@ -154,11 +182,16 @@ func (e *verifCQEnv) open() {
 }
 
 func (e *verifCQEnv) close() {
+	_ = e.h2.Close()
 	_ = e.h.Close()
 	_ = e.ro.Close()
 }
 
 func (e *verifCQEnv) call(method, path string, body interface{}) (int, map[string]interface{}) {
+	return e.callOn(e.app, method, path, body)
+}
+
+func (e *verifCQEnv) callOn(app *fiber.App, method, path string, body interface{}) (int, map[string]interface{}) {
 	var rd io.Reader
 	if body != nil {
 		b, _ := json.Marshal(body)
@@ -166,7 +199,7 @@ func (e *verifCQEnv) call(method, path string, body interface{}) (int, map[strin
 	}
 	req := httptest.NewRequest(method, path, rd)
 	req.Header.Set("Content-Type", "application/json")
-	resp, err := e.app.Test(req, 60000)
+	resp, err := app.Test(req, 60000)
 	if err != nil {
 		e.t.Fatalf("%s %s: %v", method, path, err)
 	}
@@ -201,13 +234,18 @@ func (e *verifCQEnv) lastProcessed(id int64) int64 {
 }
 
 func (e *verifCQEnv) body(active bool) map[string]interface{} {
+	return e.bodyQ(active, verifCQQuery)
+}
+
+func (e *verifCQEnv) bodyQ(active bool, query string) map[string]interface{} {
 	return map[string]interface{}{"name": "verifcq", "database": e.db, "source_measurement": "src",
-		"destination_measurement": "dst", "query": verifCQQuery, "interval": "1h", "is_active": active}
+		"destination_measurement": "dst", "query": query, "interval": "1h", "is_active": active}
 }
 
 func (e *verifCQEnv) runCase(c verifCQCase) verifCQObs {
 	obs := verifCQObs{ID: c.ID, Outs: []verifCQOut{}, Execs: []verifCQExec{}, Dest: []verifCQRow{}}
 	e.open()
+	e.active = true
 	st, m := e.call("POST", "/api/v1/continuous_queries/", e.body(true))
 	if st != 201 {
 		e.t.Fatalf("create: %d %v", st, m)
@@ -233,6 +271,21 @@ func (e *verifCQEnv) runCase(c verifCQCase) verifCQObs {
 				}
 			}
 		}
+		sched, app := e.sched, e.app
+		if op.K == "sched" || op.K == "manual" {
+			switch op.WFail {
+			case "nulltime", "strtime":
+				q := verifCQQueryNullTime
+				if op.WFail == "strtime" {
+					q = verifCQQueryStrTime
+				}
+				if st, m := e.call("PUT", path, e.bodyQ(e.active, q)); st != 200 {
+					e.t.Fatalf("switch definition: %d %v", st, m)
+				}
+			case "nobuf":
+				sched, app = e.sched2, e.app2
+			}
+		}
 		switch op.K {
 		case "sched":
 			// the scheduler's per-tick body (licence and cluster-gate checks of runJob only skip ticks)
@@ -241,7 +294,7 @@ func (e *verifCQEnv) runCase(c verifCQCase) verifCQObs {
 			lpBefore := e.lastProcessed(id)
 			func() {
 				defer func() { _ = recover() }()
-				e.sched.executeJob(job)
+				sched.executeJob(job)
 			}()
 			close(job.stopCh)
 			switch {
@@ -267,7 +320,7 @@ func (e *verifCQEnv) runCase(c verifCQCase) verifCQObs {
 			if op.XE != "" {
 				req["end_time"] = op.XE
 			}
-			st, m := e.call("POST", path+"/execute", req)
+			st, m := e.callOn(app, "POST", path+"/execute", req)
 			switch {
 			case crashed:
 				out.Code = "crashed"
@@ -294,6 +347,7 @@ func (e *verifCQEnv) runCase(c verifCQCase) verifCQObs {
 			if st != 200 {
 				e.t.Fatalf("update: %d %v", st, m)
 			}
+			e.active = op.Active
 		case "restart":
 			e.close()
 			e.open()
@@ -307,6 +361,11 @@ func (e *verifCQEnv) runCase(c verifCQCase) verifCQObs {
 			// restore them)
 			e.close()
 			e.open()
+		}
+		if (op.K == "sched" || op.K == "manual") && (op.WFail == "nulltime" || op.WFail == "strtime") {
+			if st, m := e.call("PUT", path, e.body(e.active)); st != 200 {
+				e.t.Fatalf("restore definition: %d %v", st, m)
+			}
 		}
 		out.LP = e.lastProcessed(id)
 		obs.Outs = append(obs.Outs, out)
